@@ -182,6 +182,16 @@ def check(ctx):
     ctx.require(K6, bool(th) and bool(ts) and not ka.calls_to("serde_json::ser::to_string_pretty"), "%s:%s" % (ka.file, ka.line), "the thumbprint JSON is rendered with the compact Display/to_string", ["key_authorization", "compact"])
 
 
+def thumbprint_members(ctx, rid):
+    prog = ctx.prog
+    req = {"get_rsa_jwk": {"kty", "e", "n"}, "get_ecdsa_jwk": {"kty", "crv", "x", "y"}, "get_eddsa_jwk": {"kty", "crv", "x"}}
+    for fn, members in req.items():
+        objs = ct.jwk_objects(prog, fn)
+        b = prog.must_body(KEYS + "::" + fn)
+        ctx.require(rid, set(objs.get(True, {})) == members, "%s:%s" % (b.file, b.line), "%s thumbprint members = %s (RFC 7638 required members %s)" % (fn, sorted(objs.get(True, {})), sorted(members)),
+                    [KEYS + "::" + fn, "thumbprint-members"])
+
+
 def serde_json_features(repo):
     try:
         env = dict(os.environ)
